@@ -1,6 +1,7 @@
 import F3.Spec.GraniteNet
 import F3.Props.C01
 import F3.Proofs.SyncNet
+import F3.Proofs.SyncTimedNet
 /-!
 # C02 — Validity
 
@@ -19,6 +20,11 @@ per-node configuration. Real time enters only through `SyncOrdered` (the order o
 timeouts that the bound implies; see the header of `F3/Model/Net.lean`). The per-phase steps are also in
 `C06.unanimous_step_*`; the timed claim is additionally validated on every `sync`-mode run of the harness (oracle
 `C02-unanimous-synchronous-run-decided-another-chain`).
+
+Section `Timed` closes the gap between the real-time assumption and `SyncOrdered`: `timed_sync_ordered` derives
+`SyncOrdered` from `TimedSync Δ` (`F3/Model/NetTimed.lean`: monotone timestamps, starts at most `Δ` apart, every
+message handed over less than `Δ` after it was broadcast, timeouts at least `2Δ`) for an input chain with at least
+one tipset beyond the base, and `unanimous_timed_decides` is the second sentence of the property in real-time form.
 -/
 namespace F3.Props.C02
 open F3.Granite F3.Props.C01
@@ -320,5 +326,183 @@ example :
   decide
 
 end Sync
+
+/-! ## Unanimous honest input under *real-time* synchrony
+
+`TimedSync Δ n ops` (`F3/Model/NetTimed.lean`) reads the timestamps the events already carry:
+* T1 timestamps never decrease;
+* T2 a `start` is at most `Δ` after every earlier start, and a `deliver`/`alarm` whose timestamp is `≥ s + Δ` for
+  an earlier start time `s` finds every node started;
+* T3 before any event with timestamp `≥ max t s + Δ`, the message broadcast at `t` has been handed to the node
+  started at `s` (self-delivery included; a late starter has `Δ` from its own start for the earlier messages) —
+  i.e. every delay is **strictly** below `Δ`;
+* T4 every node's QUALITY timeout and round-0 timeout (`2·δ·multiplier`, `2·δ`) are `≥ 2Δ`;  and `Δ ≥ 0`.
+
+Why strict: `gpbft.go` evaluates `now ≥ phaseTimeout`, so with timeouts of exactly `2Δ` a message that takes exactly
+`Δ` and the timer it has to beat fall on the same instant and race (first example below: the alarm wins and the
+node PREPAREs the base). Why `2 ≤ c.length`: a base-only chain ends QUALITY by its *timer* only, and the event
+list does not force an alarm to be delivered when its timer expires; a node whose alarm is late is still in QUALITY
+when a punctual node's PREPARE timer expires (second example: the full statement without `2 ≤ c.length` is false).
+
+The proof (`F3/Proofs/SyncTimed{Node,Inv,Step,Net}.lean`) is a joint induction over the execution of the invariant
+of section `Sync` and a timing invariant. With staggered starts it is *not* true that everybody enters a phase
+within `Δ` of the first node (a late starter may lag by `2Δ`); what holds, and suffices, is: a node enters PREPARE
+(COMMIT) at `e` only after a strong quorum has broadcast QUALITY (PREPARE) by `e`; the members of that quorum have
+all of these messages before `e + Δ` and leave the phase by then; their next messages reach the node before
+`e + 2Δ`, i.e. before its timer, so a node whose PREPARE / COMMIT timer expires has already left that phase, and a
+node whose QUALITY timer expires has every QUALITY message. -/
+section Timed
+open F3.Instance F3.Net
+
+/-- **Real-time synchrony implies the synchrony order.** Unanimous non-trivial input (`2 ≤ c.length`), strong
+honest quorum, no faulty sender (`execOk`), and `TimedSync Δ`: then every node that finds a round-0
+QUALITY / PREPARE / COMMIT timeout expired has already been handed that phase's message of every node. -/
+theorem timed_sync_ordered (tbl : Table) (H : List Pid) (c : Chain) (cfg : Pid → Cfg) (Δ : Int)
+    (hnd : H.Nodup) (hin : ∀ p ∈ H, p ∈ tbl.entries.map (·.1))
+    (hq : strongQ tbl ((H.map tbl.power).sum) = true) (hlen : 2 ≤ c.length) (ops : List NetOp)
+    (hexec : execOk (initNet tbl H cfg (fun _ => c)) ops = true)
+    (htimed : TimedSync Δ (initNet tbl H cfg (fun _ => c)) ops) :
+    SyncOrdered (initNet tbl H cfg (fun _ => c)) ops := by
+  have hc : c ≠ [] := by
+    intro h; rw [h] at hlen; simp at hlen
+  exact F3.Sync.timed_sync_ordered_core (F3.Sync.ctx_of tbl c H hc hnd hin hq) hlen ops hexec htimed
+
+/-- **C02, second sentence, in real time.** All honest participants propose the same chain `c` (with at least one
+tipset beyond the base), hold a strong quorum, only their messages circulate, and the execution respects the
+synchrony bound `Δ` (`TimedSync`): nothing fails, only votes for `c` are ever cast, and once the execution is
+complete everybody has terminated with decision `c`. -/
+theorem unanimous_timed_decides (tbl : Table) (H : List Pid) (c : Chain) (cfg : Pid → Cfg) (Δ : Int)
+    (hnd : H.Nodup) (hin : ∀ p ∈ H, p ∈ tbl.entries.map (·.1))
+    (hq : strongQ tbl ((H.map tbl.power).sum) = true) (hlen : 2 ≤ c.length) (ops : List NetOp)
+    (hexec : execOk (initNet tbl H cfg (fun _ => c)) ops = true)
+    (htimed : TimedSync Δ (initNet tbl H cfg (fun _ => c)) ops) :
+    ((runNet (initNet tbl H cfg (fun _ => c)) ops).fails = [] ∧
+     ∀ m ∈ (runNet (initNet tbl H cfg (fun _ => c)) ops).pool, m.sender ∈ H ∧ UnanimousMsg c m) ∧
+    (complete (runNet (initNet tbl H cfg (fun _ => c)) ops) = true →
+      (∀ p ∈ H, ∃ s, (p, s) ∈ (runNet (initNet tbl H cfg (fun _ => c)) ops).nodes) ∧
+      ∀ p s, (p, s) ∈ (runNet (initNet tbl H cfg (fun _ => c)) ops).nodes →
+        s.phase = .terminated ∧ ∃ d, s.termination = some d ∧ d.value = c) := by
+  have hc : c ≠ [] := by
+    intro h; rw [h] at hlen; simp at hlen
+  have hsync := timed_sync_ordered tbl H c cfg Δ hnd hin hq hlen ops hexec htimed
+  obtain ⟨h1, h2, _, _⟩ := unanimous_sync_invariant tbl H c cfg hnd hin hq hc ops hexec hsync
+  exact ⟨⟨h1, h2⟩, fun hcomplete =>
+    unanimous_sync_decides tbl H c cfg hnd hin hq hc ops hexec hsync hcomplete (Or.inl hlen)⟩
+
+/-- the statement of `timed_sync_ordered` for every non-empty chain — **false** for a base-only chain, see
+`timed_sync_ordered_needs_suffix` -/
+def TimedSyncOrderedStatement : Prop :=
+  ∀ (tbl : Table) (H : List Pid) (c : Chain) (cfg : Pid → Cfg) (Δ : Int),
+    H.Nodup → (∀ p ∈ H, p ∈ tbl.entries.map (·.1)) → strongQ tbl ((H.map tbl.power).sum) = true → c ≠ [] →
+    ∀ ops : List NetOp, execOk (initNet tbl H cfg (fun _ => c)) ops = true →
+      TimedSync Δ (initNet tbl H cfg (fun _ => c)) ops → SyncOrdered (initNet tbl H cfg (fun _ => c)) ops
+
+/-! ### non-vacuity and the two boundaries -/
+
+def tyTbl : Table := { entries := [(1, 10), (2, 10), (3, 10)] }
+/-- `Δ = 10` below; both timeouts are exactly `2Δ` -/
+def tyCfg : Cfg := { maxLookahead := 2, rebImmediateAfter := 3, timeout2 := [20], qualityTimeout2 := 20, rebAfter := [50] }
+def tyNet (c : Chain) : Net := initNet tyTbl [1, 2, 3] (fun _ => tyCfg) (fun _ => c)
+
+/-- `Δ = 10`, three equal members (any two are a strong quorum), input `[7, 8]`. Node 2 starts at 3 and node 3
+at 10 (exactly `Δ` after node 1), when nodes 1 and 2 are already in PREPARE; every message is handed over less than
+10 after `max (broadcast, start of the receiver)`; `alarm 2 8`, `alarm 3 20` are non-expired alarms, `alarm 1 60` an
+alarm after termination; the last DECIDE reaches instances that have terminated. -/
+def tyOps : List NetOp :=
+  let c := [7, 8]
+  [.start 1 0, .start 2 3,
+   .deliver 1 4 (syQ c 1), .deliver 1 5 (syQ c 2),
+   .deliver 2 6 (syQ c 1), .deliver 2 7 (syQ c 2), .alarm 2 8,
+   .start 3 10,
+   .deliver 1 11 (syP c 1), .deliver 1 12 (syP c 2),
+   .deliver 2 13 (syP c 1), .deliver 2 14 (syP c 2),
+   .deliver 3 15 (syQ c 1), .deliver 3 16 (syQ c 2), .deliver 3 17 (syQ c 3),
+   .deliver 1 18 (syQ c 3), .deliver 2 19 (syQ c 3),
+   .deliver 3 19 (syP c 1), .deliver 3 19 (syP c 2),
+   .deliver 1 20 (syC c 1), .deliver 1 20 (syC c 2), .alarm 3 20,
+   .deliver 2 21 (syC c 1), .deliver 2 21 (syC c 2),
+   .deliver 3 21 (syC c 1), .deliver 3 21 (syC c 2)] ++
+  syAll 22 (syP c 3) ++ syAll 23 (syC c 3) ++
+  [.deliver 1 24 (syD c 1), .deliver 1 24 (syD c 2),
+   .deliver 2 25 (syD c 1), .deliver 2 25 (syD c 2),
+   .deliver 3 26 (syD c 1), .deliver 3 26 (syD c 2)] ++ syAll 27 (syD c 3) ++ [.alarm 1 60]
+
+/-- Non-vacuity of `timed_sync_ordered` and `unanimous_timed_decides`: a concrete timed execution with staggered
+starts meets every hypothesis … -/
+theorem ty_hyps :
+    [1, 2, 3].Nodup ∧ (∀ p ∈ [1, 2, 3], p ∈ tyTbl.entries.map (·.1)) ∧
+    strongQ tyTbl (([1, 2, 3].map tyTbl.power).sum) = true ∧ 2 ≤ [7, 8].length ∧
+    execOk (tyNet [7, 8]) tyOps = true ∧ TimedSync 10 (tyNet [7, 8]) tyOps :=
+  ⟨by decide, by decide, by decide, by decide, by decide, by decide, by decide, by decide⟩
+
+/-- … so it is synchrony-ordered (by `timed_sync_ordered`; `unfold SyncOrdered; decide` confirms it) … -/
+example : SyncOrdered (tyNet [7, 8]) tyOps :=
+  timed_sync_ordered tyTbl [1, 2, 3] [7, 8] (fun _ => tyCfg) 10 ty_hyps.1 ty_hyps.2.1 ty_hyps.2.2.1 ty_hyps.2.2.2.1
+    tyOps ty_hyps.2.2.2.2.1 ty_hyps.2.2.2.2.2
+
+/-- … and it is complete with everybody decided on `[7, 8]`, as `unanimous_timed_decides` says. -/
+example :
+    execOk (tyNet [7, 8]) tyOps = true ∧ complete (runNet (tyNet [7, 8]) tyOps) = true ∧
+    (runNet (tyNet [7, 8]) tyOps).nodes.map (fun e => (e.1, e.2.phase, e.2.termination.map (·.value))) =
+      [(1, .terminated, some [7, 8]), (2, .terminated, some [7, 8]), (3, .terminated, some [7, 8])] := by
+  refine ⟨by decide, by decide, by decide⟩
+
+/-- the timestamps the ghost fields record in that execution: who broadcast which phase when -/
+example : (trun (initT (tyNet [7, 8]) tyOps) tyOps).stamps.map (fun e => (e.1.sender, e.1.phase, e.2)) =
+    [(1, .quality, 0), (2, .quality, 3), (1, .prepare, 5), (2, .prepare, 7), (3, .quality, 10), (1, .commit, 12),
+     (2, .commit, 14), (3, .prepare, 16), (3, .commit, 19), (1, .decide, 20), (2, .decide, 21), (3, .decide, 21)] := by
+  decide
+
+/-- members 1 and 2 alone are no strong quorum here -/
+def rcTbl : Table := { entries := [(1, 10), (2, 10), (3, 20)] }
+def rcNet : Net := initNet rcTbl [1, 2, 3] (fun _ => tyCfg) (fun _ => [7, 8])
+def rcPre : List NetOp :=
+  let c := [7, 8]
+  [.start 1 0, .start 2 0, .deliver 1 1 (syQ c 1), .deliver 2 1 (syQ c 1), .deliver 1 2 (syQ c 2), .deliver 2 2 (syQ c 2),
+   .start 3 10, .deliver 3 11 (syQ c 1), .deliver 3 11 (syQ c 2), .deliver 2 12 (syQ c 3), .deliver 3 12 (syQ c 3)]
+
+/-- **The boundary is a real race in the code** (why T3 is strict). `Δ = 10`, QUALITY timeout `2Δ = 20`; node 3
+starts at 10 and its QUALITY vote takes *exactly* `Δ` to reach node 1, i.e. arrives at 20 — the instant node 1's
+QUALITY timer expires (`phaseTimeoutElapsed` is `now ≥ timeout`). If the alarm is handled first, node 1 PREPAREs the
+base `[7]` although everybody proposed `[7, 8]`; the execution is not `TimedSync` (and not `SyncOrdered`). With the
+vote one tick earlier it is `TimedSync` and node 1 PREPAREs `[7, 8]`. -/
+example :
+    execOk rcNet (rcPre ++ [.alarm 1 20, .deliver 1 20 (syQ [7, 8] 3)]) = true ∧
+    ¬ TimedSync 10 rcNet (rcPre ++ [.alarm 1 20, .deliver 1 20 (syQ [7, 8] 3)]) ∧
+    ¬ SyncOrdered rcNet (rcPre ++ [.alarm 1 20, .deliver 1 20 (syQ [7, 8] 3)]) ∧
+    (1, Instance.Phase.prepare, [7]) ∈
+      (runNet rcNet (rcPre ++ [.alarm 1 20, .deliver 1 20 (syQ [7, 8] 3)])).pool.map (fun m => (m.sender, m.phase, m.value)) ∧
+    TimedSync 10 rcNet (rcPre ++ [.deliver 1 19 (syQ [7, 8] 3), .alarm 1 20]) ∧
+    (1, Instance.Phase.prepare, [7, 8]) ∈
+      (runNet rcNet (rcPre ++ [.deliver 1 19 (syQ [7, 8] 3), .alarm 1 20])).pool.map (fun m => (m.sender, m.phase, m.value)) := by
+  refine ⟨by decide, ?_, ?_, by decide, ⟨by decide, by decide, by decide⟩, by decide⟩
+  · rintro ⟨_, _, h⟩
+    revert h
+    decide
+  · unfold SyncOrdered
+    decide
+
+/-- base-only input `[7]`, `Δ = 10`: node 1 starts at 0, nodes 2 and 3 at 10; all messages are prompt. Node 1's
+QUALITY alarm is delivered on time (20) and it enters PREPARE; nodes 2 and 3 (timers at 30) are never given an alarm
+and see no event after 30, so they are still in QUALITY when node 1's PREPARE timer expires at 40. -/
+def tyOpsBase : List NetOp :=
+  let c := [7]
+  [.start 1 0, .deliver 1 1 (syQ c 1), .start 2 10, .start 3 10,
+   .deliver 2 11 (syQ c 1), .deliver 3 11 (syQ c 1)] ++ syAll 12 (syQ c 2) ++ syAll 13 (syQ c 3) ++
+  [.alarm 1 20] ++ syAll 21 (syP c 1) ++ [.alarm 1 40]
+
+/-- **`2 ≤ c.length` cannot be dropped** from `timed_sync_ordered`: for a base-only chain QUALITY ends by the timer
+alone and `TimedSync` does not make alarms punctual. (Nothing goes wrong in this run — node 1 just keeps waiting in
+PREPARE; it is the *sufficient* condition `SyncOrdered` that fails. A base-only unanimous input additionally needs
+"every expired QUALITY timer is followed by its alarm within the bound", cf. `timersFired` in `unanimous_sync_decides`.) -/
+theorem timed_sync_ordered_needs_suffix : ¬ TimedSyncOrderedStatement := by
+  intro h
+  have h1 := h tyTbl [1, 2, 3] [7] (fun _ => tyCfg) 10 (by decide) (by decide) (by decide) (by decide) tyOpsBase
+    (by decide) ⟨by decide, by decide, by decide⟩
+  revert h1
+  unfold SyncOrdered
+  decide
+
+end Timed
 
 end F3.Props.C02
